@@ -57,19 +57,6 @@ Qed.
 Definition ref_ok (r : rmap) (m : metric) : Prop :=
   forall k off sz, ref_get r k = Some (off, sz) -> off <> 0 /\ k <= m_max m.
 
-Lemma redelete_negative : forall batch cm k, cm_inv batch cm -> k < two64 ->
-  redelete_at batch cm k = true -> exists v, cm_lookup batch cm k = Some v /\ (ssz v < 0)%Z.
-Proof.
-  intros batch cm k Hinv Hk H. unfold redelete_at in H. unfold cm_lookup.
-  destruct (locate batch cm k) as [x|] eqn:L; [|discriminate].
-  destruct (locate_some batch cm k x Hinv Hk L) as [s [Hx [Hs [Hl [_ Hsub]]]]].
-  rewrite (nth_of_nth_error cm x empty_section s Hx) in *. cbv zeta.
-  rewrite Hsub, u32_small in H by assumption.
-  destruct (find_overflow (s_overflow s) (k - s_start s)) as [[c o]|] eqn:F; [|discriminate].
-  destruct (find_overflow_some _ _ _ _ (si_os _ _ (sw_inv _ _ (ci_wf _ _ Hinv _ _ Hx))) F) as [F1 _].
-  exists o. unfold sec_lookup. rewrite F1. split; [reflexivity|]. apply Z.ltb_lt. exact H.
-Qed.
-
 Lemma m_max_maybe : forall m k, m_max (maybe_max m k) = N.max (m_max m) k.
 Proof. intros m k. unfold maybe_max. destruct (N.ltb_spec (m_max m) k); simpl; lia. Qed.
 
@@ -143,11 +130,11 @@ Proof.
     cbn [nm_step entry_of_op fst]. cbn [fold_left]. rewrite (load_step_put batch cm m k off sz Hoff' Hvalid).
     unfold nm_put. cbn [nm_map nm_met nm_idx].
     rewrite ref_step_put_fst in Hnext, Hd2. rewrite ref_step_put_snd in Hres.
-    cbn [cm_step step_trig] in Hnext, Hres.
+    cbn [cm_step] in Hnext, Hres.
     destruct (cm_set batch cm k off sz) as [[cm' oo] os] eqn:E. cbn [fst snd] in Hnext, Hres.
     (* the old value returned by Set is the reference's *)
     assert (Hold : (0 < os)%Z -> oo <> 0).
-    { intros Hos. specialize (Hres eq_refl).
+    { intros Hos.
       destruct (ref_get r k) as [[ro rs]|] eqn:G; injection Hres as -> ->.
       - destruct (Hok k ro rs G). assumption.
       - lia. }
@@ -171,13 +158,9 @@ Proof.
     cbn [nm_step entry_of_op fst]. cbn [fold_left]. rewrite (load_step_tomb batch cm m k off).
     unfold nm_delete. cbn [nm_map nm_met nm_idx].
     rewrite (ref_step_del_live r k off ro rs G Hlive) in Hnext, Hres, Hd2.
-    cbn [cm_step step_trig] in Hnext, Hres. cbn [fst snd] in Hd2.
+    cbn [cm_step] in Hnext, Hres. cbn [fst snd] in Hd2.
     destruct (cm_delete batch cm k) as [cm' ret] eqn:E. cbn [fst snd] in Hnext, Hres.
-    assert (Hnt : redelete_at batch cm k = false).
-    { destruct (redelete_at batch cm k) eqn:T; [|reflexivity].
-      destruct (redelete_negative batch cm k Hinv Hk1 T) as [v [Hv Hneg]].
-      pose proof (Hrel k Hk1) as Rk. rewrite Hv, G in Rk. simpl in Rk. injection Rk as _ Rs. lia. }
-    specialize (Hres Hnt). injection Hres as ->.
+    injection Hres as ->.
     destruct (Hok k ro rs G) as [Hro Hmax]. rewrite (maybe_max_id m k Hmax).
     assert (Hmet : add_del m rs = log_delete m rs).
     { unfold log_delete, log_deletion. destruct (Z.ltb_spec 0 rs); [reflexivity|lia]. }
@@ -227,14 +210,12 @@ Proof.
   intros [_ [H _]]. vm_compute in H. discriminate.
 Qed.
 
-(* ---------- the refinement's known exception, concretely ---------- *)
-(* with a section capacity of 2 three Sets suffice to reach the overflow list *)
+(* ---------- the former exception of the refinement, now repaired ---------- *)
+(* with a section capacity of 2 three Sets suffice to reach the overflow list; the second Delete
+   of the overflow entry returns 0 *)
 Definition redelete_witness : list op := [Put 0 1 10%Z; Put 10 2 20%Z; Put 5 3 30%Z; Del 5 9; Del 5 9].
 
-Theorem results_refine_refuted : exists batch ops, 0 < batch /\ keys_ok ops /\
-  fst (cm_run batch [] ops) <> fst (ref_run [] ops).
-Proof.
-  exists 2, redelete_witness. split; [lia|]. split.
-  - repeat constructor; vm_compute; reflexivity.
-  - vm_compute. intros H. discriminate.
-Qed.
+Lemma redelete_witness_ok :
+  fst (cm_run 2 [] redelete_witness) = [RSet 0 0%Z; RSet 0 0%Z; RSet 0 0%Z; RDel 30%Z; RDel 0%Z] /\
+  map (fun s => length (s_overflow s)) (snd (cm_run 2 [] redelete_witness)) = [1%nat].
+Proof. vm_compute. split; reflexivity. Qed.
